@@ -54,6 +54,7 @@ type Gen struct {
 	inlineStack []string
 	smoke       bool
 	knownLens   map[string]int
+	boxed       map[string]Val
 }
 
 func newGen(w *World, fn *ssa.Function, spec *FuncSpec) *Gen {
